@@ -48,6 +48,9 @@ type gramRun struct {
 	stats    gramStats
 	profiles []profile
 	line     int
+	prevRoot ast.Node
+	seed     int64
+	walkBasic bool
 }
 
 func (g *gramRun) want(p string) bool { return g.props[p] }
@@ -266,7 +269,7 @@ func (g *gramRun) sentence(s *sentence) {
 		g.eval("C05")
 		g.writeObs(text0, n0)
 	}
-	if g.want("C17") && g.walk != nil {
+	if (g.want("C17") || g.want("C19")) && g.walk != nil {
 		g.eval("C17")
 		g.writeWalk(n0)
 	}
@@ -276,7 +279,7 @@ func (g *gramRun) sentence(s *sentence) {
 	}
 
 	// ---- C16 / C06 / C05 on the other render profiles ---------------------------------------------
-	if g.want("C16") || g.want("C06") || g.want("C05") {
+	if g.want("C16") || g.want("C06") || g.want("C05") || g.want("C08") {
 		for _, pf := range g.profiles[1:] {
 			text, starts, ends := render(s.Toks, false, pf)
 			n, err, pan := safeCall(spec, text)
@@ -286,6 +289,7 @@ func (g *gramRun) sentence(s *sentence) {
 				g.find("C16", "panic", s, pf.Name, text, pan)
 			case err != nil || n == nil:
 				g.find("C16", "reject", s, pf.Name, text, fmt.Sprint(err))
+				g.find("C08", "reject", s, pf.Name, text, spec.Name+": "+fmt.Sprint(err)) // G's sentences in the other keyword case
 			default:
 				if digest(n, false) != d0 {
 					g.find("C16", "tree", s, pf.Name, text, "differs from the plain rendering: "+text0)
@@ -420,12 +424,15 @@ func init() {
 		props := fs.String("props", "C01,C02,C05,C06,C07,C08,C16", "properties to evaluate")
 		nprof := fs.Int("profiles", 3, "number of render profiles (1 = plain only)")
 		astfile := fs.String("astfile", "/repo/ast/ast.go", "ast.go (node documentation for C19)")
+		seed := fs.Int64("seed", 1, "seed for prune sets")
 		fs.Parse(args)
 		g := &gramRun{props: map[string]bool{}, stats: gramStats{Evals: map[string]int{}, Findings: map[string]int{}, Kinds: map[string]int{}, Starts: map[string]int{}}}
 		for _, p := range strings.Split(*props, ",") {
 			g.props[strings.TrimSpace(p)] = true
 		}
 		g.props["MODEL"] = true
+		g.seed = *seed
+		g.walkBasic = !g.props["C17"]
 		if *nprof > len(profiles) {
 			*nprof = len(profiles)
 		}
